@@ -151,7 +151,16 @@ def fam_flat5(item):
     yield from forced(item['shape'], lambda n: [1, 2, 3])
 
 
-FAMS = {'flat6fv': fam_flat6fv, 'flat5fv': fam_flat5fv, 'flatfv': fam_flatfv, 'flat5': fam_flat5, 'flat': fam_flat, 'flat4': fam_flat4, 'nest': fam_nest,
+def fam_sdnever(item):
+    base = item['shape']
+    menu = gen.open_menu(base, {'dur': [0, 2, 3], 'cdelay': [1]},
+                         {'timeout': [1], 'forever': [True]},
+                         {'sdt': [0, 2], 'window': [1]})
+    for scn, _ in gen.variants(base, menu, item['k']):
+        yield scn
+
+
+FAMS = {'sdnever': fam_sdnever, 'flat6fv': fam_flat6fv, 'flat5fv': fam_flat5fv, 'flatfv': fam_flatfv, 'flat5': fam_flat5, 'flat': fam_flat, 'flat4': fam_flat4, 'nest': fam_nest,
         'deep': fam_deep, 'tflat': fam_tflat, 'tnest': fam_tnest}
 
 
@@ -196,6 +205,15 @@ def items(tier, seed):
         yield dict(fam='flat5fv', shape=shape, k=1, bound=1)
     for shape in gen.sparse_shapes(6, 2):
         yield dict(fam='flat6fv', shape=shape, k=1, bound=2 if thorough else 1)
+    # a nested scheduler whose shutdown phase is unbounded (shutdown_timeout
+    # None, a handler that blocks until cancelled) under a timed parent
+    for T in (1, 2, 3):
+        for shape in gen.nest_shapes(2, 2):
+            base = gen.apply_mods(shape, [('top', 'timeout', T),
+                                          ('n', 'sdt', None),
+                                          ('x', 'sd', 'never')])
+            yield dict(fam='sdnever', shape=base, k=2 if thorough else 1,
+                       bound=2)
     # C: nested
     for shape in gen.nest_shapes(3, 2):
         yield dict(fam='nest', shape=shape, k=1 if thorough else 0,
